@@ -379,19 +379,26 @@ def generate_macro_application(
     macro_code = macro_def.block
     macro_args = macro_def.args
     macro_args_values = node.args
+    # arguments are evaluated at the call site, before the macro scope (and its parameters) exist
+    bound_values: list[Any] = []
+    for index, _arg in enumerate(macro_args):
+        value = macro_args_values[index]
+        if isinstance(value, BlockAstNode):
+            bound_values.append(value)
+        else:
+            try:
+                bound_values.append(eval_expression(value, resolver))
+            except SymbolNotDefined:
+                bound_values.append(None)
     resolver.append_scope()
     resolver.use_next_scope()
     code.append(ScopeNode(resolver))
     for index, arg in enumerate(macro_args):
-        value = macro_args_values[index]
-        try:
-            if isinstance(value, BlockAstNode):
-                resolver.current_scope.add_symbol(arg, value)
-            else:
-                resolver.current_scope.add_symbol(arg, eval_expression(value, resolver))
-        except SymbolNotDefined:
+        if bound_values[index] is not None:
+            resolver.current_scope.add_symbol(arg, bound_values[index])
+        else:
             # defer the resolve to the emit part.
-            code.append(SymbolNode(arg, value, resolver))
+            code.append(SymbolNode(arg, macro_args_values[index], resolver))
     code += _code_gen(macro_code.body, resolver, macro_definitions)
     code.append(PopScopeNode(resolver))
     resolver.restore_scope()
